@@ -222,19 +222,38 @@ type c15Case struct {
 	Err      string        `json:"error_value_returned_by_the_writer"`
 	N        int           `json:"fault_free_write_calls"`
 	Skipable bool          `json:"json_skipable_default"`
+	Handle   string        `json:"how_the_table_handed_to_the_renderer_was_made"`
 }
 
 func c15Inject(c *Ctx, spec *gen.TableSpec, skipable bool, sample bool) {
-	build := func() tabular.Table {
-		t := tabular.New()
-		spec.Build(t)
-		if skipable {
-			t.Column(0).SetProperty(properties.Skipable, true)
+	// what the renderer is handed is a table made by any of the creation functions, with or without another
+	// wrapper around it (the repository's inspection example renders a table from auto.New in other formats):
+	// the property is about the destination, so it holds for every such handle
+	paths, wrs := c10Paths(), c10Wrappers
+	h := int(gen.Hash64(spec.Shape(), fmt.Sprint(textsOf(spec))) % 1000003)
+	for ri, rd := range c15Renderers() {
+		path := paths[(h+ri*5)%len(paths)]
+		wi := (h/7 + ri*3) % (2 * len(wrs))
+		handle := path.name
+		if wi < len(wrs) {
+			handle = wrs[wi].name + " around a table from " + path.name
 		}
-		return t
-	}
-	for _, rd := range c15Renderers() {
-		cs := &c15Case{Table: *spec, Renderer: rd.name, Skipable: skipable}
+		if (h+ri)%3 == 0 {
+			path, wi, handle = paths[0], len(wrs), paths[0].name
+		}
+		build := func() tabular.Table {
+			t := path.mk()
+			spec.Build(t)
+			if skipable {
+				t.Column(0).SetProperty(properties.Skipable, true)
+			}
+			if wi < len(wrs) {
+				return wrs[wi].f(t)
+			}
+			return t
+		}
+		cs := &c15Case{Table: *spec, Renderer: rd.name, Skipable: skipable, Handle: handle}
+		c.Rec.Count("detail:handles:"+handle, 1)
 		c.Case = cs
 		ref := &scriptWriter{}
 		refErr := rd.to(build(), ref)
